@@ -49,6 +49,7 @@ def parseOpL : List String → Option Op
   | ["clear", k] => do some (.clear (← k.toNat?))
   | ["drop", k] => do some (.drop (← k.toNat?))
   | ["dropodcid", k] => do some (.dropOdcid (← k.toNat?))
+  | ["relq", k] => do some (.relQueue (← k.toNat?))
   | ["route", c] => (parseCid c).map .route
   | _ => none
 
